@@ -449,3 +449,187 @@ def run(ctx: vlib.Ctx, name: str, n_schemas: int, per_schema: int, depth=3, fore
             return cases, None, "unparsable coq output: " + out[-1500:]
         bad.extend(n * shard + i for i in idx)
     return cases, bad, ""
+
+
+# ---------------------------------------------------------------------------
+# the as_dict form of a NamedTuple class at the top of a codec (coq/theories/TyNtDict.v)
+# ---------------------------------------------------------------------------
+
+ND_HEADER = """Inductive ncase :=
+| NEnc (E: senv) (c: string) (glob: bool) (v e: pv)
+| NDec (E: senv) (c: string) (glob: bool) (d: pv) (e: option pv).
+"""
+
+ND_OK_FUN = """Definition is_too_few (e: exn) : bool := match e with XOther s => String.eqb s "too few items" | _ => false end.
+(* the global option describes the classes whose items reach no other NamedTuple *)
+Definition dom (E: senv) (c: string) (glob: bool) : bool :=
+  negb glob || match sfind E KNamed c with Some k => forallb (fun f => nt_free E f.(sf_ty)) k.(sc_fields) | None => false end.
+Definition ok (c: ncase) : bool :=
+  match c with
+  | NEnc E c g v e =>
+      dom E c g &&
+      match pk_nd E P v c, ref_enc_nd E P v c with
+      | Ok r, Ok r' => pv_same r e && pv_same r' e
+      | _, _ => false end
+  | NDec E c g d e =>
+      dom E c g &&
+      match uk_nd E P d c, ref_dec_nd_l E P d c, e with
+      | Ok r, Ok r', Some x => pv_same r x && pv_same r' x
+      | Exn _, Exn _, None => true
+      | _, _, _ => false end
+      && match ref_dec_nd E P d c, e with
+         | Ok r, Some x => pv_same r x
+         | Exn e', None => true
+         | Exn e', Some _ => is_too_few e'
+         | Ok _, None => false end
+  end.
+"""
+
+
+def nd_schema(sg: gen.SchemaGen, rng, flat: bool) -> T:
+    """a NamedTuple class with trailing defaults whose item types come from the Coq grammar
+    (flat: no NamedTuple below it, so that the global option describes the same behaviour)"""
+    def item():
+        for _ in range(20):
+            c = rng.random()
+            if c < 0.25:
+                ft = T(rng.choice(["int", "str", "bool", "float"]))
+            elif c < 0.4:
+                ft = T("tuplefix", [T(rng.choice(["int", "str", "bool"])) for _ in range(rng.randrange(1, 4))])
+            elif c < 0.5:
+                ft = sg.const_type()
+            elif c < 0.6 and not flat:
+                ft = sg.namedtuple_type(1)
+            else:
+                ft = sg.gen_type(rng.choice([0, 1, 1, 2]))
+            if not flat or not _reaches_nt(ft, sg.fam):
+                return ft
+        return T("int")
+    spec = gen.ClassSpec("nt", sg.fresh("N"))
+    for k2 in range(rng.randrange(1, 5)):
+        spec.fields.append(gen.FieldSpec(f"a{k2}", item()))
+    for f in reversed(spec.fields):
+        dv = sg.simple_default(f.ty) if rng.random() < 0.7 else None
+        if dv is None or (isinstance(dv[0], str) and dv[0].startswith("factory:")):
+            break
+        f.default, f.default_src = dv
+    sg.fam.classes.append(spec)
+    return T("nt", name=spec.name)
+
+
+def _reaches_nt(t: T, fam) -> bool:
+    seen = set()
+
+    def go(x):
+        for n in x.walk():
+            if n.kind == "nt":
+                return True
+            if n.kind in ("data", "td") and n.name not in seen:
+                seen.add(n.name)
+                if any(go(f.ty) for f in fam.get(n.name).fields):
+                    return True
+        return False
+    return go(t)
+
+
+def nd_inputs(w, names, rng, foreign: int):
+    """encoder output; every key removed; a surplus key; only the keys given; foreign positions; one nested list cut short;
+    inputs that are not dicts (membership / substring tests of the defaulted fields, TypeError otherwise)"""
+    out = [w]
+    if isinstance(w, dict):
+        out += [{k: v for k, v in w.items() if k != k0} for k0 in w]
+        out.append({**w, "zz_surplus": 1})
+        out.append(dict(reversed(list(w.items()))))
+        out.append({})
+    out += [corrupt(w, rng) for _ in range(foreign)] + null_variants(w, rng, 2) + truncations(w, 4)
+    out += [[], list(names), names[-1:], "".join(names), names[-1], "", rng.choice([None, 7, 2.5, True])]
+    return out
+
+
+def make_nd_cases(rng, n_schemas: int, foreign: int = 3):
+    from mashumaro.codecs.basic import BasicDecoder, BasicEncoder
+    from mashumaro.dialect import Dialect
+    cases = []
+    for si in range(n_schemas):
+        sg = gen.SchemaGen(rng, gen.GenOpts(depth=2, coq_only=True, named=True, literals=True))
+        sg.tag = f"nd{si}_"
+        glob = rng.random() < 0.4
+        t = nd_schema(sg, rng, flat=glob)
+        fam = sg.fam
+        ns = fam.build()
+        ty = gen.resolve(t, ns)
+        if glob:
+            dia = type("AsDictAll", (Dialect,), {"namedtuple_as_dict": True})
+        else:
+            dia = type("AsDictOne", (Dialect,), {"serialization_strategy": {ty: {"serialize": "as_dict", "deserialize": "as_dict"}}})
+        enc = BasicEncoder(ty, default_dialect=dia)
+        dec = BasicDecoder(ty, default_dialect=dia)
+        names = [f.name for f in fam.get(t.name).fields]
+        vg = gen.ValueGen(rng, fam)
+        for vi in range(2):
+            v = vg.value(t)
+            try:
+                w = enc.encode(v)
+            except Exception as e:
+                cases.append(dict(fam=fam, t=t, ns=ns, kind="enc", value=v, out=("exc", type(e).__name__), glob=glob))
+                continue
+            cases.append(dict(fam=fam, t=t, ns=ns, kind="enc", value=v, out=("ok", w), glob=glob))
+            for d in (nd_inputs(w, names, rng, foreign) if vi == 0 else [w, corrupt(w, rng)]):
+                d0 = copy.deepcopy(d)
+                try:
+                    out = ("ok", dec.decode(d))
+                except Exception as e:
+                    out = ("exc", type(e).__name__)
+                cases.append(dict(fam=fam, t=t, ns=ns, kind="dec", input=d0, out=out, glob=glob))
+    return cases
+
+
+def emit_nd(cases, shard=150):
+    files = []
+    for si in range(0, len(cases), shard):
+        chunk = cases[si:si + shard]
+        tb = Tables()
+        envs: dict[int, str] = {}
+        env_defs = []
+        lines = []
+        for c in chunk:
+            fam, t, ns = c["fam"], c["t"], c["ns"]
+            if id(fam) not in envs:
+                name = f"E_{len(envs)}"
+                envs[id(fam)] = name
+                env_defs.append(f"Definition {name} : senv := {coq_senv(fam, [x.name for x in fam.classes if x.kind in ('data', 'nt', 'td')])}.")
+            en = envs[id(fam)]
+            g = "true" if c["glob"] else "false"
+            if c["kind"] == "enc":
+                tb.add_value(c["value"], fam, ns)
+                e = coq_pv(c["out"][1]) if c["out"][0] == "ok" else '(VOther "impl-raised")'
+                lines.append(f"NEnc {en} {coq_str(t.name)} {g} {coq_pv(c['value'])} {e}")
+            else:
+                tb.add_input(c["input"], t, fam, ns)
+                e = f"(Some {coq_pv(c['out'][1])})" if c["out"][0] == "ok" else "None"
+                lines.append(f"NDec {en} {coq_str(t.name)} {g} {coq_pv(c['input'])} {e}")
+        txt = HEADER.format(extra=" TyNtDict") + ND_HEADER + tb.coq() + "\n" + "\n".join(env_defs) + "\n" + ND_OK_FUN
+        txt += "Definition cases : list ncase :=\n  [" + ";\n   ".join(lines) + "].\n"
+        txt += "Eval vm_compute in (bad_idx ok cases).\n"
+        files.append(txt)
+    return files
+
+
+def run_nd(ctx: vlib.Ctx, name: str, n_schemas: int, foreign: int = 3):
+    """(M) correspondence of TyNtDict.v (pk_nd / ref_enc_nd / uk_nd / ref_dec_nd) with BasicEncoder / BasicDecoder under a dialect
+    that selects the as_dict form (class-specific serialization strategy, or the global option on NamedTuple-free items)"""
+    cases = make_nd_cases(ctx.rng, n_schemas, foreign)
+    br = vlib.coq_make(["theories/TyNtDict.vo", "theories/CaseLib.vo", "theories/Wire.vo"])
+    if not br.ok:
+        return cases, None, "model does not build: " + (br.error or "")
+    files = emit_nd(cases)
+    res = vlib.coq_eval_many([(f"{name}_{i}", txt) for i, txt in enumerate(files)], timeout=600, jobs=8)
+    bad = []
+    for n, (ok, out) in enumerate(res):
+        if not ok:
+            return cases, None, out[-3000:]
+        idx = vlib.parse_nat_list(out)
+        if idx is None:
+            return cases, None, "unparsable coq output: " + out[-1500:]
+        bad.extend(n * 150 + i for i in idx)
+    return cases, bad, ""
